@@ -33,7 +33,7 @@ var authItems = []string{
 	"T0-honest", "T1-wrong-name", "T2-untrusted-root", "T3-client-cert-untrusted", "T4-no-client-cert", "T5-client-cert-if-given-untrusted", "T6-ip-literal-name",
 	"M-flip-byte", "M-replace-from-session1", "M-drop", "M-duplicate", "M-swap", "M-suite-strip", "M-serverhello-suite", "M-cert-substitute", "M7-refragment(legal)", "M7-warning-alert", "clock-skew",
 }
-var authReach = []string{"victim-rejected", "allowed-completed", "honest-completed", "gm-cbc", "gm-gcm", "policy-request", "policy-require-any", "policy-verify-if-given", "policy-require-and-verify", "mitm-both-failed", "mitm-one-failed", "mitm-noop-completed", "session1-harvested", "rewrite-clienthello", "rewrite-serverhello", "rewrite-certificate", "rewrite-skx", "rewrite-ckx", "rewrite-other", "views-compared"}
+var authReach = []string{"victim-rejected", "allowed-completed", "honest-completed", "gm-cbc", "gm-gcm", "policy-request", "policy-require-any", "policy-verify-if-given", "policy-require-and-verify", "mitm-both-failed", "mitm-one-failed", "mitm-noop-completed", "session1-harvested", "rewrite-clienthello", "rewrite-serverhello", "rewrite-certificate", "rewrite-skx", "rewrite-ckx", "rewrite-other", "views-compared", "mitm-tls-path"}
 
 func init() {
 	register(Family{Name: "tls-auth-impostor", Prop: "C08", ID: 801, Weight: 3, FaultNames: authItems, ReachNames: authReach, Run: runAuthImpostor})
@@ -574,6 +574,15 @@ type hsRelay struct {
 	applied  bool
 	changed  bool
 	other    *hsRelay
+	vers     uint16 // record-layer version of the latest record read (re-serialised records carry it on)
+	tls      bool   // plain TLS session
+}
+
+func (h *hsRelay) recVers() uint16 {
+	if h.vers != 0 {
+		return h.vers
+	}
+	return reftls.VersionGM
 }
 
 func (h *hsRelay) run() {
@@ -584,7 +593,7 @@ func (h *hsRelay) run() {
 	var held []byte
 	send := func(msg []byte) {
 		h.sentMsgs = append(h.sentMsgs, msg)
-		h.dst.Write(reftls.Record{Type: reftls.RecHandshake, Vers: reftls.VersionGM, Body: msg}.Bytes())
+		h.dst.Write(reftls.Record{Type: reftls.RecHandshake, Vers: h.recVers(), Body: msg}.Bytes())
 	}
 	for {
 		n, err := readFull(h.src, hdr)
@@ -599,6 +608,7 @@ func (h *hsRelay) run() {
 			return
 		}
 		ln := int(hdr[3])<<8 | int(hdr[4])
+		h.vers = uint16(hdr[1])<<8 | uint16(hdr[2])
 		rec := make([]byte, 5+ln)
 		copy(rec, hdr)
 		if n, err = readFull(h.src, rec[5:]); err != nil {
@@ -689,7 +699,11 @@ func (h *hsRelay) rewrite(raw []byte, held *[]byte) [][]byte {
 		if err != nil {
 			return [][]byte{raw}
 		}
-		sh.Suite = gmSuites[0] + gmSuites[1] - sh.Suite
+		if h.tls {
+			sh.Suite = map[uint16]uint16{0xc02f: 0x009c, 0x009c: 0x002f, 0x002f: 0x009c}[sh.Suite]
+		} else {
+			sh.Suite = gmSuites[0] + gmSuites[1] - sh.Suite
+		}
 		h.changed = true
 		return [][]byte{reftls.Handshake(reftls.HsServerHello, sh.Marshal())}
 	case "M-cert-substitute":
@@ -697,6 +711,11 @@ func (h *hsRelay) rewrite(raw []byte, held *[]byte) [][]byte {
 			return [][]byte{raw}
 		}
 		certs, err := reftls.ParseCertificate(body)
+		if h.tls && err == nil && len(certs) >= 1 {
+			certs[0] = pki.DER([]string{"tlsrsa2", "tlsp256", "srvrsa"}[rw.Val%3]) // another certificate, from the trusted root or not
+			h.changed = true
+			return [][]byte{reftls.Handshake(reftls.HsCertificate, reftls.MarshalCertificate(certs))}
+		}
 		if err != nil || len(certs) < 2 {
 			return [][]byte{raw}
 		}
@@ -714,11 +733,11 @@ func (h *hsRelay) rewrite(raw []byte, held *[]byte) [][]byte {
 		// split the message over two records: transcript unchanged
 		cut := 1 + rw.Off%(len(raw)-1)
 		h.sentMsgs = append(h.sentMsgs, raw)
-		h.dst.Write(reftls.Record{Type: reftls.RecHandshake, Vers: reftls.VersionGM, Body: raw[:cut]}.Bytes())
-		h.dst.Write(reftls.Record{Type: reftls.RecHandshake, Vers: reftls.VersionGM, Body: raw[cut:]}.Bytes())
+		h.dst.Write(reftls.Record{Type: reftls.RecHandshake, Vers: h.recVers(), Body: raw[:cut]}.Bytes())
+		h.dst.Write(reftls.Record{Type: reftls.RecHandshake, Vers: h.recVers(), Body: raw[cut:]}.Bytes())
 		return nil
 	case "M7-warning-alert":
-		h.dst.Write(reftls.Record{Type: reftls.RecAlert, Vers: reftls.VersionGM, Body: []byte{1, 100}}.Bytes())
+		h.dst.Write(reftls.Record{Type: reftls.RecAlert, Vers: h.recVers(), Body: []byte{1, 100}}.Bytes())
 		return [][]byte{raw}
 	}
 	return [][]byte{raw}
@@ -728,6 +747,10 @@ func runAuthMITM(c *simkit.Choice, r *simkit.Rec) {
 	pki.Load()
 	suiteList := [][]uint16{{gmSuites[0], gmSuites[1]}, {gmSuites[1], gmSuites[0]}, {gmSuites[0]}, {gmSuites[1]}}[c.Choose(4, simkit.LScen)]
 	clientAuth := c.Bool(1, 2, simkit.LScen)
+	tlsMode := c.Bool(1, 3, simkit.LScen) // two plain-TLS gmtls endpoints (ECDHE_RSA / RSA key exchange)
+	if tlsMode {
+		suiteList = [][]uint16{{0xc02f, 0x009c}, {0x009c, 0xc02f}, {0x002f, 0x009c}, {0xc02f}}[c.Choose(4, simkit.LScen)]
+	}
 	kinds := []string{"M-flip-byte", "M-replace-from-session1", "M-drop", "M-duplicate", "M-swap", "M-suite-strip", "M-serverhello-suite", "M-cert-substitute", "M7-refragment(legal)", "M7-warning-alert"}
 	rw := &mitmRewrite{Kind: kinds[c.Weighted([]int{5, 4, 2, 2, 2, 2, 2, 3, 2, 1}, simkit.LFault)]}
 	rw.Dir = c.Choose(2, simkit.LFault)
@@ -759,7 +782,10 @@ func runAuthMITM(c *simkit.Choice, r *simkit.Rec) {
 	entS := simkit.NewStream(uint64(c.Choose(1<<31, simkit.LEntropy)) + 53)
 	pol := simkit.Policy{StarveNode: -1, MeanGap: []int{0, 11}[c.Choose(2, simkit.LScen)]}
 	s := simkit.NewSim(c, pol, 4000000)
-	r.Config = fmt.Sprintf("mitm/%s/dir%d/auth%v", rw.Kind, rw.Dir, clientAuth)
+	r.Config = fmt.Sprintf("mitm/%s/dir%d/auth%v/tls%v", rw.Kind, rw.Dir, clientAuth, tlsMode)
+	if tlsMode {
+		r.Reach(idx(authReach, "mitm-tls-path"))
+	}
 	r.SigStr(r.Config)
 	r.Sig(uint64(rw.Index))
 
@@ -775,8 +801,8 @@ func runAuthMITM(c *simkit.Choice, r *simkit.Rec) {
 		cliRaw, atkC := s.NewConnPair("cli"+tag, "atkc"+tag, capt, capt)
 		atkS, srvRaw := s.NewConnPair("atks"+tag, "srv"+tag, capt, capt)
 		out.taps = [4]*simkit.Pipe{cliRaw.WrPipe(), cliRaw.RdPipe(), srvRaw.RdPipe(), srvRaw.WrPipe()}
-		c2s := &hsRelay{s: s, dir: 0, src: atkC, dst: atkS, rw: rewrite}
-		s2c := &hsRelay{s: s, dir: 1, src: atkS, dst: atkC, rw: rewrite}
+		c2s := &hsRelay{s: s, dir: 0, src: atkC, dst: atkS, rw: rewrite, tls: tlsMode}
+		s2c := &hsRelay{s: s, dir: 1, src: atkS, dst: atkC, rw: rewrite, tls: tlsMode}
 		if prev != nil {
 			c2s.prev, s2c.prev = prev.rel[0].seen, prev.rel[1].seen
 		}
@@ -788,6 +814,12 @@ func runAuthMITM(c *simkit.Choice, r *simkit.Rec) {
 			cfg.CipherSuites = suiteList
 			if clientAuth {
 				cfg.Certificates = []gmtls.Certificate{pki.GM("cli")}
+			}
+			if tlsMode {
+				cfg = &gmtls.Config{Rand: entC, Time: simTime(s, 0), RootCAs: pki.Pool("rsaCA"), ServerName: "server.sim", CipherSuites: suiteList}
+				if clientAuth {
+					cfg.Certificates = []gmtls.Certificate{pki.GMStd("tlsclirsa")}
+				}
 			}
 			conn := gmtls.Client(cliRaw, cfg)
 			out.c.HsErr = conn.Handshake()
@@ -818,6 +850,10 @@ func runAuthMITM(c *simkit.Choice, r *simkit.Rec) {
 			}
 			cfg := victimServerCfg(s, 0, entS, 0, p)
 			cfg.CipherSuites = []uint16{gmSuites[0], gmSuites[1]}
+			if tlsMode {
+				cfg = &gmtls.Config{Rand: entS, Time: simTime(s, 0), Certificates: []gmtls.Certificate{pki.GMStd("tlsrsa")}, CipherSuites: []uint16{0xc02f, 0x009c, 0x002f},
+					ClientAuth: p, ClientCAs: pki.Pool("rsaCA"), SessionTicketsDisabled: true}
+			}
 			conn := gmtls.Server(srvRaw, cfg)
 			out.sv.HsErr = conn.Handshake()
 			collectState(conn, &out.sv)
